@@ -392,8 +392,65 @@ def o203(ctx):
         ctx.finding(q, ifs[0], "the accepted target must be recorded for its source", ifs[0], m)
 
 
+def o204(ctx):
+    """the per-source cap counts *accepted* candidates: the counter that is compared with the cap is incremented exactly where a candidate is
+    recorded (same enclosing conditions), never for candidates that merely passed an earlier test"""
+    src = lambda n: " ".join(ast.unparse(n).split())
+    found = 0
+    for q in (MT + "measure_thickness_cpu", MT + "find_matches_parallel"):
+        if not ctx.prog.has(q):
+            continue
+        m, fn = ctx.prog.func(q)
+        ctx.touched(q)
+
+        def chain(n):
+            out, ch, p = [], n, m.parents.get(n)
+            while p is not None and p is not fn:
+                if isinstance(p, ast.If):
+                    out.append((id(p), "body" if any(ch is x for x in p.body) else "orelse"))
+                ch, p = p, m.parents.get(p)
+            return tuple(out)
+
+        class _Inc:  # `c += 1` and `c = c + 1` alike
+            def __init__(self, node, name):
+                self.node, self.target, self.lineno = node, ast.Name(id=name), node.lineno
+
+        incs = [_Inc(n, n.target.id) for n in ast.walk(fn) if isinstance(n, ast.AugAssign) and isinstance(n.op, ast.Add) and isinstance(n.target, ast.Name)
+                and isinstance(n.value, ast.Constant) and n.value.value == 1]
+        incs += [_Inc(n, n.targets[0].id) for n in ast.walk(fn) if isinstance(n, ast.Assign) and len(n.targets) == 1 and isinstance(n.targets[0], ast.Name)
+                 and isinstance(n.value, ast.BinOp) and isinstance(n.value.op, ast.Add)
+                 and {src(n.value.left), src(n.value.right)} == {n.targets[0].id, "1"}]
+        caps = {}
+        for c in ast.walk(fn):
+            if isinstance(c, ast.Compare) and len(c.ops) == 1 and isinstance(c.left, ast.Name) and isinstance(c.comparators[0], ast.Name):
+                if "max_matches" in c.comparators[0].id:
+                    caps[c.left.id] = c
+                elif "max_matches" in c.left.id:  # mirrored spelling: max_matches > count
+                    caps[c.comparators[0].id] = c
+        for inc in incs:
+            if inc.target.id not in caps:
+                continue
+            name = inc.target.id
+            # where a candidate is recorded: an append of a tuple, or a store indexed by the counter
+            rec = [n for n in ast.walk(fn) if (isinstance(n, ast.Call) and isinstance(n.func, ast.Attribute) and n.func.attr == "append" and n.args
+                                               and isinstance(n.args[0], ast.Tuple))
+                   or (isinstance(n, ast.Assign) and isinstance(n.targets[0], ast.Subscript)
+                       and any(isinstance(x, ast.Name) and x.id == name for x in ast.walk(n.targets[0].slice)))]
+            if not rec:
+                raise Unsupported(f"{q}: where a candidate is recorded not recognised", inc.node)
+            found += 1
+            ctx.count(1, {"function": q, "counter": name, "recorded at lines": [r_.lineno for r_ in rec], "incremented at line": inc.lineno})
+            if not any(chain(r_) == chain(inc.node) for r_ in rec):
+                ctx.finding(q, inc.node, f"the counter `{name}` that is compared with the cap is incremented under other conditions than the ones under which a "
+                            "candidate is recorded: candidates that are not accepted use up the cap, and sources in dense regions lose admissible targets",
+                            inc.node, m)
+    if not found:
+        raise Unsupported("cap counter of the candidate kernels not found")
+
+
 def _obligations():
     return [
+        Obligation("O20.4", "the per-source cap counts accepted candidates only (counter incremented where a candidate is recorded)", o204, floor=2),
         Obligation("O20.1", "all three kernels accept a candidate iff it is ahead of the source and inside the cone of half-angle max_angle", o201, floor=300),
         Obligation("O20.2", "candidate ball centred on the source points with radius max_thickness/voxel_size; row-space typing; 2to1 swap", o202, floor=16),
         Obligation("O20.3", "greedy one-to-one assignment: sorted by distance, taken tests and markers, tuple layout, thickness scaling", o203, floor=7),
